@@ -1278,6 +1278,9 @@ func c11RuleA(w *World, r *Report, subjects []*ssa.Function, ctxs map[string]*Ct
 	const rule = "C11/A-type-assertion"
 	cg := w.CallGraph()
 	for _, fn := range subjects {
+		if w.isGenericTemplate(fn) {
+			continue // the declared body of a generic function: what runs are its instances, each a subject of its own
+		}
 		counts := map[string]int{}
 		forEachInstr(fn, func(b *ssa.BasicBlock, ins ssa.Instruction) {
 			ta, ok := ins.(*ssa.TypeAssert)
@@ -1392,9 +1395,15 @@ func (w *World) dynTypes(v ssa.Value, visitorType string, depth int, seen map[*s
 			if f := c.Call.StaticCallee(); f != nil {
 				return w.returnTypes(f, x.Index, visitorType, depth+1, seen)
 			}
+			if ts := w.dynTypesOfFuncValueCall(c, x.Index, v.Type(), visitorType, depth, seen); ts != nil {
+				return ts
+			}
 		}
 		out["?"] = true
 	case *ssa.Call:
+		if ts := w.dynTypesOfFuncValueCall(x, 0, v.Type(), visitorType, depth, seen); ts != nil {
+			return ts
+		}
 		if f := x.Call.StaticCallee(); f != nil {
 			if f.Name() == "Accept" && f.Pkg == w.Grammar && len(x.Call.Args) == 2 {
 				// the same dispatch on a context of concrete type (statically bound): visitor.Visit<Rule>(ctx)
@@ -1462,6 +1471,37 @@ func (w *World) dynTypes(v ssa.Value, visitorType string, depth int, seen map[*s
 		out["?"] = true
 	default:
 		out["?"] = true
+	}
+	return out
+}
+
+// dynTypesOfFuncValueCall: the call runs a function value (a closure's captured function, a parameter, a member of a table, a
+// method expression ...): when every function the value can be is known, the call yields what those functions return. nil when the
+// call is not of that kind or the set of functions is not known to be complete.
+func (w *World) dynTypesOfFuncValueCall(c *ssa.Call, idx int, resT types.Type, visitorType string, depth int, seen map[*ssa.Function]bool) map[string]bool {
+	if c.Call.IsInvoke() || c.Call.StaticCallee() != nil {
+		return nil
+	}
+	if _, isB := c.Call.Value.(*ssa.Builtin); isB {
+		return nil
+	}
+	targets, complete := w.fnValueTargets(c.Call.Value, nil)
+	if !complete || len(targets) == 0 {
+		return nil
+	}
+	out := map[string]bool{}
+	if _, isIface := resT.Underlying().(*types.Interface); !isIface {
+		out[types.TypeString(resT, shortQual)] = true
+		return out
+	}
+	for _, g := range targets {
+		vt := visitorType
+		if rn := recvNamed(g); rn == "PacketDslVisitorImpl" || rn == "PacketDslFormattor" {
+			vt = rn
+		}
+		for t := range w.returnTypes(g, idx, vt, depth+1, seen) {
+			out[t] = true
+		}
 	}
 	return out
 }
@@ -3066,6 +3106,28 @@ func (w *World) validatedLookups() map[string]bool {
 			}
 		}
 	}
+	// a lookup in a helper that is handed the name: the names are those its call sites pass; the miss is reported in the helper or,
+	// for a helper that returns (entry, found), at the call site
+	phase := parsePhaseFuncs(w)
+	for _, fn := range phase {
+		forEachInstr(fn, func(_ *ssa.BasicBlock, ins ssa.Instruction) {
+			lk, ok := ins.(*ssa.Lookup)
+			if !ok || paramIndexOf(fn, lk.Index) < 0 {
+				return
+			}
+			if _, isMap := lk.X.Type().Underlying().(*types.Map); !isMap {
+				return
+			}
+			for _, kb := range lookupKeyBindings(lk, phase) {
+				if kb.site == nil {
+					continue
+				}
+				if _, checked := missDiagnosed(lk, kb); checked {
+					out[normMapDesc(lk.X)+"|"+keyPath(kb.key)] = true
+				}
+			}
+		})
+	}
 	return out
 }
 
@@ -3102,6 +3164,10 @@ func (w *World) linkNonNilByConstruction(link string) string {
 					}
 				}
 				if guardedByNil(b, v, true) {
+					return
+				}
+				// the entry a resolver helper found (it returns (entry, found) of its lookup), stored under the found edge
+				if foundLookupValue(fn, v, b) != nil {
 					return
 				}
 				ok = false
